@@ -173,6 +173,8 @@ func ruleX3(p *Prog, r *Report) {
 	// getAllChildReferences: a reference that does not resolve is reported as broken, a resolved one as reference
 	if w := walkers[1]; w != nil {
 		brokenOK, refOK := false, false
+		var resolvedAppend *ssa.Call
+		var resolvedSlab ssa.Value
 		eachInstr(w, func(in ssa.Instruction) {
 			c, ok := in.(*ssa.Call)
 			if !ok {
@@ -202,10 +204,41 @@ func ruleX3(p *Prog, r *Report) {
 				}
 				if edgeDominates(blk, 0, in.Block()) && flowsToResult(w, c, 0) && !flowsToResult(w, c, 1) {
 					refOK = true
+					resolvedAppend = c
+					for _, ref := range *rc.Referrers() {
+						if e0, ok := ref.(*ssa.Extract); ok && e0.Index == 0 {
+							resolvedSlab = e0
+						}
+					}
 				}
 			}
 		})
 		r.Decide(brokenOK && refOK, R, "broken-vs-resolved:"+names[1], p.Pos(w.Pos()), "unresolvable ids go to brokenReferences, resolvable ones to references", "getAllChildReferences no longer separates resolvable from broken references by the found flag of Retrieve")
+		// every resolved child slab is descended into: from the point where its id is recorded, every path to the
+		// next iteration or to the exit passes through ChildStorables() of that slab
+		if resolvedAppend != nil && resolvedSlab != nil {
+			n++
+			var escape ssa.Instruction
+			ab := resolvedAppend.Block()
+			reachFrom(w, resolvedAppend, nil, func(y ssa.Instruction) bool {
+				if escape != nil {
+					return true
+				}
+				if c, ok := y.(ssa.CallInstruction); ok && calleeName(c) == "ChildStorables" && callRecv(c) != nil && sameValue(callRecv(c), resolvedSlab) {
+					return true
+				}
+				if _, ok := y.(*ssa.Return); ok {
+					escape = y
+					return true
+				}
+				if y.Block() != ab && y.Block().Dominates(ab) {
+					escape = y // back at a loop head: the next reference is processed without having descended
+					return true
+				}
+				return false
+			})
+			r.Decide(escape == nil, R, "resolved-child-descended:"+names[1], p.InstrPos(resolvedAppend), "the children of every resolved slab are queued on every path", "a resolved child slab can be recorded without queueing its own children: references below it (and broken references below it) are not reported")
+		}
 	}
 	// CheckStorageHealth predicates: each failure mode of the property is tested and reported
 	if h := walkers[2]; h != nil {
@@ -319,8 +352,78 @@ func ruleX3(p *Prog, r *Report) {
 			n++
 			r.Decide(found, R, "health-predicate:"+pr.name, p.Pos(h.Pos()), "an error return is control dependent on this predicate", "CheckStorageHealth no longer fails on this condition ("+pr.name+"): unhealthy storages of that kind would be accepted")
 		}
+		// every reference resolves: the map that records the referenced ids (key converted from a SlabIDStorable)
+		// is ranged over, and each key is looked up among the slabs of the storage with an error on the miss edge.
+		// (The climb from leaves to roots only resolves ids that lie on such a path: a missing childless slab does not.)
+		n++
+		var refMap ssa.Value
+		eachInstr(h, func(in ssa.Instruction) {
+			mu, ok := in.(*ssa.MapUpdate)
+			if !ok {
+				return
+			}
+			k := canon(mu.Key)
+			for depth := 0; depth < 4; depth++ {
+				if typeName(k.Type()) == "SlabIDStorable" {
+					refMap = canon(mu.Map)
+					return
+				}
+				switch x := k.(type) {
+				case *ssa.Convert:
+					k = canon(x.X)
+				case *ssa.ChangeType:
+					k = canon(x.X)
+				default:
+					depth = 4
+				}
+			}
+		})
+		resolved := false
+		if refMap != nil {
+			eachInstr(h, func(in ssa.Instruction) {
+				rg, ok := in.(*ssa.Range)
+				if !ok || canon(rg.X) != refMap {
+					return
+				}
+				// keys produced by this range
+				keys := map[ssa.Value]bool{}
+				for _, nx := range *rg.Referrers() {
+					nxt, ok := nx.(*ssa.Next)
+					if !ok {
+						continue
+					}
+					for _, e := range *nxt.Referrers() {
+						if ex, ok := e.(*ssa.Extract); ok && ex.Index == 1 {
+							keys[ex] = true
+						}
+					}
+				}
+				isKey := func(v ssa.Value) bool { return keys[v] || keys[canon(v)] }
+				for _, ret := range returnsOf(h) {
+					if c, _ := classifyReturn(ret); c != retError {
+						continue
+					}
+					if controlDependsOnValue(h, ret.Block(), func(v ssa.Value) bool {
+						ex, ok := v.(*ssa.Extract)
+						if !ok || ex.Index != 1 {
+							return false
+						}
+						switch t := ex.Tuple.(type) {
+						case *ssa.Lookup:
+							return t.CommaOk && isKey(t.Index)
+						case *ssa.Call:
+							return calleeName(t) == "Retrieve" && len(callArgs(t)) > 0 && isKey(callArgs(t)[0])
+						}
+						return false
+					}) {
+						resolved = true
+					}
+				}
+			})
+		}
+		r.Decide(resolved, R, "health-predicate:every-reference-resolves", p.Pos(h.Pos()), "every recorded reference is looked up among the storage's slabs and a miss is an error", "a referenced slab that is missing from storage is only noticed if it lies on a path from a childless slab to a root: deleting a childless referenced slab (a leaf data slab, a large-value slab) leaves a dangling reference that the health check accepts")
 	}
-	r.Floor(R, "walkers and predicates", 7, n)
+	r.Floor(R, "walkers and predicates", 8, n)
 }
 
 // X4 iterator agreement: sibling Next* methods advance the same cursor fields.
